@@ -54,6 +54,8 @@ type shape struct {
 	// NoSamePath: output = input path is not a sensible invocation (detached signature)
 	NoSamePath bool
 	Hash       crypto.Hash
+	// Parts: ids of the single-hazard shapes this multi-hazard shape combines
+	Parts []string
 }
 
 type caseSpec struct {
@@ -73,7 +75,25 @@ type finding struct {
 var findings = map[string]*finding{}
 var findingCount = map[string]int{}
 
-func report(key, desc string, replay any, weight int) {
+// captured, when non-nil, receives the findings of the running case instead of the global table
+var captured *[]capture
+var probing bool
+
+type capture struct {
+	hz, failure, desc string
+	replay            any
+	weight            int
+}
+
+func report(hz, failure, desc string, replay any, weight int) {
+	if captured != nil {
+		*captured = append(*captured, capture{hz, failure, desc, replay, weight})
+		return
+	}
+	record(hz+":"+failure, desc, replay, weight)
+}
+
+func record(key, desc string, replay any, weight int) {
 	findingCount[key]++
 	if f, ok := findings[key]; !ok || weight < f.Weight {
 		findings[key] = &finding{key, desc, replay, weight}
@@ -145,7 +165,9 @@ func altKey(sh *shape, key string, round int) string {
 }
 
 func runCase(e *env, sh *shape, cs caseSpec) {
-	run.Eval(1)
+	if !probing {
+		run.Eval(1)
+	}
 	dir, in := e.fresh(sh.Ext)
 	defer os.RemoveAll(dir)
 	orig := sh.Build()
@@ -160,13 +182,19 @@ func runCase(e *env, sh *shape, cs caseSpec) {
 	signedInput := false
 	for r := 0; r < cs.Rounds; r++ {
 		if err := signOnce(sh, altKey(sh, cs.Key, r), in, in); err != nil {
-			run.Outcome("skipped:prior-round-failed")
+			outcome("skipped:prior-round-failed")
 			return
 		}
 		signedInput = true
 	}
 	if cs.Rounds > 0 {
-		hz += ":resigned-by-relic"
+		// re-signing relic's own output: keyed by type only for the generic
+		// (hazard-free) shapes so that one root cause has one key
+		if genericHazard(sh.Hazard) {
+			hz = sh.Type + ":resign"
+		} else {
+			hz += ":resign"
+		}
 	}
 	input, _ := os.ReadFile(in)
 	var before *payload.Payload
@@ -177,13 +205,13 @@ func runCase(e *env, sh *shape, cs caseSpec) {
 		before, err = readPayload(sh, in, e)
 		if err != nil {
 			if cs.Rounds > 0 {
-				run.Outcome("skipped:prior-round-output-unreadable")
+				outcome("skipped:prior-round-output-unreadable")
 				return
 			}
 			// the harness generated something its own readers reject: a harness
 			// error, never a verdict about relic
 			fmt.Printf("HARNESS-ERROR: input shape %s rejected by the independent reader: %v\n", sh.ID, err)
-			run.Outcome("harness:input-rejected-by-reader")
+			outcome("harness:input-rejected-by-reader")
 			run.Capped("input shape rejected by the independent reader: " + sh.ID)
 			return
 		}
@@ -199,35 +227,35 @@ func runCase(e *env, sh *shape, cs caseSpec) {
 	weight := len(orig)
 	if serr != nil {
 		if pe, ok := serr.(*relicx.PanicError); ok {
-			run.Outcome("panic-during-sign(C11 domain):" + errClass(pe))
+			outcome("panic-during-sign(C11 domain):" + sh.Type + ":" + sh.Hazard + ":" + errClass(pe))
 		} else {
-			run.Outcome("refused:" + sh.Type + ":" + errClass(serr))
+			outcome("refused:" + sh.Type + ":" + errClass(serr))
 		}
 		if !bytes.Equal(after, input) {
-			report(hz+":input-modified-although-signing-failed", fmt.Sprintf("%s key=%s out=%s: sign returned %q but the input file changed (%d -> %d bytes)", sh.ID, cs.Key, cs.OutMode, serr, len(input), len(after)), replay, weight)
+			report(hz, "input-modified-although-signing-failed", fmt.Sprintf("%s key=%s out=%s: sign returned %q but the input file changed (%d -> %d bytes)", sh.ID, cs.Key, cs.OutMode, serr, len(input), len(after)), replay, weight)
 		}
 		if cs.OutMode == "new" {
 			if _, err := os.Stat(out); err == nil {
-				report(hz+":output-written-although-signing-failed", fmt.Sprintf("%s key=%s: sign returned %q but an output file exists", sh.ID, cs.Key, serr), replay, weight)
+				report(hz, "output-written-although-signing-failed", fmt.Sprintf("%s key=%s: sign returned %q but an output file exists", sh.ID, cs.Key, serr), replay, weight)
 			}
 		}
 		return
 	}
-	run.Distinct(sh.ID + "|" + cs.Key + "|" + cs.OutMode + fmt.Sprint(cs.Rounds))
+	distinct(sh.ID + "|" + cs.Key + "|" + cs.OutMode + fmt.Sprint(cs.Rounds))
 	if cs.OutMode == "new" && !bytes.Equal(after, input) {
-		report(hz+":input-modified-with-separate-output", fmt.Sprintf("%s key=%s: output went to a new path but the input file changed", sh.ID, cs.Key), replay, weight)
+		report(hz, "input-modified-with-separate-output", fmt.Sprintf("%s key=%s: output went to a new path but the input file changed", sh.ID, cs.Key), replay, weight)
 	}
 	got, err := readPayload(sh, out, e)
 	if err != nil {
-		run.Outcome("signed:output-unreadable")
-		report(hz+":output-unreadable", fmt.Sprintf("%s key=%s out=%s rounds=%d: relic sign exit 0 but the independent reader rejects the output: %v", sh.ID, cs.Key, cs.OutMode, cs.Rounds, err), replay, weight)
+		outcome("signed:output-unreadable")
+		report(hz, "output-unreadable", fmt.Sprintf("%s key=%s out=%s rounds=%d: relic sign exit 0 but the independent reader rejects the output: %v", sh.ID, cs.Key, cs.OutMode, cs.Rounds, err), replay, weight)
 		return
 	}
 	diffs := payload.Diff(before, got)
 	if len(diffs) == 0 {
-		run.Outcome("signed:payload-identical")
+		outcome("signed:payload-identical")
 	} else {
-		run.Outcome("signed:payload-differs")
+		outcome("signed:payload-differs")
 		classes := map[string]bool{}
 		for _, d := range diffs {
 			classes[payload.DiffClass(d)] = true
@@ -241,7 +269,7 @@ func runCase(e *env, sh *shape, cs caseSpec) {
 		if len(show) > 4 {
 			show = show[:4]
 		}
-		report(hz+":payload-"+strings.Join(cl, "+"), fmt.Sprintf("%s key=%s out=%s rounds=%d: %d payload differences: %s", sh.ID, cs.Key, cs.OutMode, cs.Rounds, len(diffs), strings.Join(show, "; ")), replay, weight)
+		report(hz, "payload-"+strings.Join(cl, "+"), fmt.Sprintf("%s key=%s out=%s rounds=%d: %d payload differences: %s", sh.ID, cs.Key, cs.OutMode, cs.Rounds, len(diffs), strings.Join(show, "; ")), replay, weight)
 	}
 	// relic's own verifier on its own output: tallied, judged by C01
 	if mod := signers.ByName(sh.Type); mod != nil && (mod.Verify != nil || mod.VerifyStream != nil) {
@@ -262,15 +290,87 @@ func runCase(e *env, sh *shape, cs caseSpec) {
 			}()
 			f.Close()
 			if verr != nil {
-				run.Outcome("relic-verify-of-own-output-fails:" + sh.Type + ":" + errClass(verr))
+				outcome("relic-verify-of-own-output-fails:" + sh.Type + ":" + errClass(verr))
 			} else {
-				run.Outcome("relic-verify-of-own-output-ok")
+				outcome("relic-verify-of-own-output-ok")
 			}
 		}
 	}
 	if len(got.SigItems) == 0 && sh.PType != "pgp-detached" {
-		report(hz+":no-signature-in-output", fmt.Sprintf("%s: signing succeeded but the independent reader finds no signature item in the output", sh.ID), replay, weight)
+		report(hz, "no-signature-in-output", fmt.Sprintf("%s: signing succeeded but the independent reader finds no signature item in the output", sh.ID), replay, weight)
 	}
+}
+
+func outcome(c string) {
+	if !probing {
+		run.Outcome(c)
+	}
+}
+
+func distinct(k string) {
+	if !probing {
+		run.Distinct(k)
+	}
+}
+
+var probeCache = map[string]map[string]bool{}
+
+// failuresOf runs a component shape silently and returns its failure classes.
+func failuresOf(e *env, sh *shape, cs caseSpec) map[string]bool {
+	k := sh.ID + "|" + cs.Key + "|" + cs.OutMode
+	if m, ok := probeCache[k]; ok {
+		return m
+	}
+	var got []capture
+	captured, probing = &got, true
+	runCase(e, sh, caseSpec{sh.ID, cs.Key, cs.OutMode, 0})
+	captured, probing = nil, false
+	m := map[string]bool{}
+	for _, c := range got {
+		m[c.failure] = true
+	}
+	probeCache[k] = m
+	return m
+}
+
+// runMinimised runs a multi-hazard shape; a failure that one of its
+// single-hazard components shows on its own is attributed to that component
+// (which reports it itself) so that the key names the minimal failing class.
+func runMinimised(e *env, sh *shape, cs caseSpec, byID map[string]*shape) {
+	var got []capture
+	captured = &got
+	runCase(e, sh, cs)
+	captured = nil
+	for _, c := range got {
+		explained := false
+		for _, pid := range sh.Parts {
+			if p := byID[pid]; p != nil && failuresOf(e, p, cs)[c.failure] {
+				explained = true
+				outcome("multi-hazard-failure-attributed-to-component:" + p.Type + ":" + p.Hazard)
+				break
+			}
+		}
+		if !explained {
+			record(c.hz+":"+c.failure, c.desc, c.replay, c.weight)
+		}
+	}
+}
+
+func fnv32(s string) uint32 {
+	h := uint32(2166136261)
+	for i := 0; i < len(s); i++ {
+		h = (h ^ uint32(s[i])) * 16777619
+	}
+	return h & 0x7fffffff
+}
+
+func genericHazard(h string) bool {
+	for _, p := range []string{"canonical", "plain", "fixture", "cfbgen:", "unsigned", "fat-slice", "even-members"} {
+		if strings.HasPrefix(h, p) {
+			return true
+		}
+	}
+	return false
 }
 
 func main() {
@@ -303,6 +403,10 @@ func main() {
 	deadline := time.Now().Add(25 * time.Minute)
 	idx := 0
 	shapeCount := map[string]int{}
+	byID := map[string]*shape{}
+	for i := range all {
+		byID[all[i].ID] = &all[i]
+	}
 	for i := range all {
 		sh := &all[i]
 		if only != "" && !strings.Contains(sh.ID, only) {
@@ -320,14 +424,25 @@ func main() {
 				}
 				for r := 0; r <= sh.Rounds; r++ {
 					idx++
-					if idx%sn != si {
+					// all re-signing cases of one type go to the same shard so that
+					// hazard-specific re-sign findings can be folded into the
+					// type's generic one (same root cause, one key)
+					if r > 0 {
+						if int(fnv32(sh.Type))%sn != si {
+							continue
+						}
+					} else if idx%sn != si {
 						continue
 					}
 					if time.Now().After(deadline) {
 						run.Capped("time cap 25 min")
 						continue
 					}
-					runCase(e, sh, caseSpec{sh.ID, key, om, r})
+					if len(sh.Parts) > 0 {
+						runMinimised(e, sh, caseSpec{sh.ID, key, om, r}, byID)
+					} else {
+						runCase(e, sh, caseSpec{sh.ID, key, om, r})
+					}
 				}
 			}
 		}
@@ -345,6 +460,17 @@ func main() {
 	for _, k := range strings.Split(os.Getenv("C03_KNOWN_EXTRA"), ",") {
 		if k = strings.TrimSpace(k); k != "" {
 			devKnown[k] = true
+		}
+	}
+	for k := range findings {
+		// fold "<type>:<hazard>:resign:<failure>" into "<type>:resign:<failure>" when the generic shape fails the same way
+		parts := strings.Split(k, ":")
+		if len(parts) >= 4 && parts[len(parts)-2] == "resign" {
+			generic := parts[0] + ":resign:" + parts[len(parts)-1]
+			if _, ok := findings[generic]; ok && generic != k {
+				findingCount[generic] += findingCount[k]
+				delete(findings, k)
+			}
 		}
 	}
 	for k, f := range findings {
